@@ -105,10 +105,11 @@ func (p *Prog) constTables(roots []*ssa.Function, keyT, elemT string) []constTab
 // switchTable: f as a table function.
 func (p *Prog) switchTable(f *ssa.Function, keyT, elemT string) (constTable, bool) {
 	sig := f.Signature
-	if sig.Params().Len() != 1 || sig.Results().Len() < 1 || sig.Results().Len() > 2 || len(f.Params) == 0 {
+	// one formal in all: a function of the key, or a method of the key type without parameters
+	if len(f.Params) != 1 || sig.Results().Len() < 1 || sig.Results().Len() > 2 {
 		return constTable{}, false
 	}
-	if !typeEnds(sig.Params().At(0).Type(), keyT) || !typeEnds(sig.Results().At(0).Type(), elemT) {
+	if !typeEnds(f.Params[0].Type(), keyT) || !typeEnds(sig.Results().At(0).Type(), elemT) {
 		return constTable{}, false
 	}
 	if sig.Results().Len() == 2 {
